@@ -4,6 +4,7 @@ use vmon::report::Report;
 mod c16;
 mod c16h2;
 mod c17h2;
+mod c17drop;
 mod c17;
 mod common;
 use common::Out;
@@ -100,6 +101,10 @@ fn main() {
         "c17-h2" => {
             let total: u64 = cases_override.unwrap_or(if quick { 800 } else { 40_000 });
             sharded(n, move |s| c17h2::run_shard(seed, s, ns, total)).rep
+        }
+        "c17-drop" => {
+            let total: u64 = cases_override.unwrap_or(if quick { 800 } else { 40_000 });
+            sharded(n, move |s| c17drop::run_shard(seed, s, ns, total)).rep
         }
         "c17-shutdown" => {
             let total: u64 = cases_override.unwrap_or(if quick { 640 } else { 10_000 });
